@@ -295,7 +295,11 @@ func runCrash(sc Scenario, s *Session, rng *rand.Rand, res *ScenarioResult) {
 	Uninstall()
 
 	// ---- reconstruct crash images from the recorded I/O
-	imgDir, err := os.MkdirTemp("/dev/shm", "verif-img-")
+	shmBase := os.Getenv("VERIF_SHMDIR")
+	if shmBase == "" {
+		shmBase = "/dev/shm"
+	}
+	imgDir, err := os.MkdirTemp(shmBase, "verif-img-")
 	if err != nil {
 		imgDir, _ = os.MkdirTemp("", "verif-img-")
 	}
